@@ -140,6 +140,7 @@ struct World {
   // ghosts
   std::vector<long> owner;                                  // id -> tid of the thread currently running with it
   std::vector<std::vector<vshim::real_weak_ptr<size_t>>> issued;   // id -> raw heartbeats handed out so far
+  long turn = 0;                                            // scenario turn counter (await / bump)
   std::vector<long> my_id;                                  // tid -> id obtained
   std::vector<vshim::real_weak_ptr<size_t>> my_hb;                 // tid -> its own heartbeat (raw)
 
@@ -230,6 +231,20 @@ struct World {
     } else if (o.name == "fwd") {
       const long n = o.a > 0 ? o.a : 1;
       for (long i = 0; i < n; ++i) forward_once();
+      tok(rk + "0");
+    } else if (o.name == "await") {
+      // wait (one scheduling quantum per look) until the scenario's turn counter has reached the given value
+      while (true) {
+        bool ready = false;
+        vsched::pseudo_op_fn("await", "-", [&](uint64_t &rd, uint64_t &wr) {
+          rd = wr = static_cast<uint64_t>(turn);
+          ready = turn >= o.a;
+        });
+        if (ready) break;
+      }
+      tok(rk + "0");
+    } else if (o.name == "bump") {
+      ++turn;
       tok(rk + "0");
     } else if (o.name == "hold") {
       // stay alive (running user code, holding the ID) for a number of scheduling quanta
